@@ -10,6 +10,7 @@
 EXTENDS BlockContractDefs, BlockFns, SequencesExt, Json, IOUtils, TLCExt
 
 H == INSTANCE Hdlc
+BF == INSTANCE ByteFormats
 
 VARIABLES l,
           hdr,                  \* current scenario header
@@ -157,6 +158,8 @@ Expected ==
     [] f.kind = "s2pdu" -> << Flatten(StreamToPduFn(p, ins, InTagSet)) >>
     [] f.kind = "hdlc" -> << Flatten(H!Deframe(p, ins[1])) >>
     [] f.kind = "expect" -> p.expect
+    [] f.kind = "auenc" -> << BF!AuEncodeFn(p.rate, ins[1], p.den) >>
+    [] f.kind = "audec" -> << BF!AuDecodeFn(ins[1]) >>
     [] f.kind = "p12" -> << Flatten([k \in 1 .. (Len(ins[1]) \div 2) |-> <<ins[1][2 * k - 1], ins[1][2 * k]>>]), ins[1] >>
     [] OTHER -> <<>>
 ExpectedTags ==
